@@ -9,7 +9,9 @@ A case (JSON) is
    "targets": null | int/float/str | [elements],     # elements: int (Integral) or float/str/None (non-integer)
    "container": "list"|"tuple"|"ndarray"|"range"|"npint"|"scalar"|"none",
    "dtype": null | "dense" | "csr" | "dia" | "Dense" | "CSR" | "Dia" | "cls:Dense" | "cls:CSR" | "cls:Dia",
-   "entry": {...}}                                    # kind == "entry": Gate.get_qobj / Pulse.get_ideal_qobj
+   "entry": {"via": "gate"|"gate-num-qubits"|"gate-default"|"gate-history"|"pulse"|"pulse-none"|"pulse-history",
+             "gate", "controls", "targets", "arg", "odims", "calls": [{"dims": [..]} | {"num_qubits": n} | {"int_dims": n} | {}]}}
+                                                      # kind == "entry": Gate.get_qobj / Pulse.get_ideal_qobj on ONE object
 """
 import glob
 import itertools
@@ -32,7 +34,9 @@ TRUSTED = [
     "sanity-checked against qutip.tensor(basis ...) at the start of every run",
     "the operator is abstract in the theorems (any function of digit lists); linearity of the implementation in the operator "
     "is not proved, it is sampled (coded operator, matrix units, random dense operators)",
-    "Gate.get_qobj(dims=...) and Pulse.get_ideal_qobj(dims) are covered by the oracle only (they delegate to expand_operator)",
+    "Gate.get_qobj(dims=...) / get_qobj(num_qubits=...) and Pulse.get_ideal_qobj(dims) are not modelled themselves: every call "
+    "(all placements on <= 4 subsystems incl. full-width non-ascending targets, and 2-3 call histories on one object with "
+    "different dims) is compared with the numpy oracle and with the model's entry map of the underlying expand_operator call",
     "tables (all (x,y) pairs of a case) with more than 300 (quick) / 150 (thorough) nonzero entries are compared through the "
     "entry count and two 61-bit polynomial hashes of the row-major cell sequence, computed by Coq on the model's table and by "
     "the harness on the implementation's matrix; smaller tables entry by entry",
@@ -848,7 +852,7 @@ def correspond(ctx):
     ncorpus = len(cases)
     cases += valid_cases(ctx)
     mal = malformed_cases(ctx)
-    entries = [c for c in cases if c.get("kind") == "entry"]
+    entries = [c for c in cases if c.get("kind") == "entry"] + entry_cases(ctx)
     cases = [c for c in cases if c.get("kind") != "entry"] + mal
     corr.extra["corpus_cases"] = ncorpus
 
@@ -873,6 +877,14 @@ def correspond(ctx):
         else:
             jobs.setdefault(key + "#s", ("status", c))
             plans.append((c, key + "#s", "status", None))
+    # the expand_operator calls underlying the entry-point cases (same tables, shared with the stream above)
+    entry_keys = {}
+    for c in entries:
+        for mc in entry_model_cases(c):
+            if _prod(mc["dims"]) <= TABLE_MAX_D:
+                k2 = _model_key(mc)
+                jobs.setdefault(k2, ("table", mc))
+                entry_keys.setdefault(k2, mc)
     model = eval_model(ctx, jobs)
 
     # ---- run the implementation, compare, evaluate the property
@@ -1033,12 +1045,39 @@ def correspond(ctx):
             corr.count(key, nontrivial=any(t != i for i, t in enumerate(ts)), sample=inp)
             corr.tally("sampled-entry cases")
 
-    # ---- observable entry points (oracle only)
-    for c in entries + entry_cases(ctx):
-        f = check_entry(c)
+    # ---- observable entry points: numpy oracle and the model's entry map, every call of every history
+    model_maps = {}
+    for k2, mc in entry_keys.items():
+        m = model.get(k2)
+        if m is None or not isinstance(m, tuple) or len(m) != 4:
+            model_maps[k2] = None
+            continue
+        rdims, ncells, mcells, mdigest = m
+        if list(rdims) != list(mc["dims"]):
+            corr.disagree(dict(kind="entry-model", **mc), mc["dims"], rdims, "model result dims differ from the requested dims")
+            model_maps[k2] = None
+            continue
+        if mcells is None:
+            # digest only: rebuild the table from the property text and check it against the model's digest
+            D = _prod(mc["dims"])
+            C = _prod(mc["ocol"])
+            M = C * C + 1
+            X = oracle_matrix(coded_matrix(mc["orow"], mc["ocol"]), mc["dims"], mc["targets"])
+            nz = np.argwhere(X != 0)
+            codes = np.rint(X[nz[:, 0], nz[:, 1]].real).astype(np.int64)
+            mcells = [int(v) for v in ((nz[:, 0] * D + nz[:, 1]) * M + codes)]
+            if len(mcells) != ncells or tuple(hash_cells(B, mcells) for B in HASH_B) != tuple(mdigest):
+                corr.disagree(dict(kind="entry-model", **mc), "table from the property text", "model digest",
+                              "model table differs from the property-text table (digest)")
+                model_maps[k2] = None
+                continue
+        model_maps[k2] = mcells
+    for c in entries:
+        f = check_entry(c, model_maps, corr)
         corr.tally("entry:" + c["entry"]["via"])
+        corr.tally("entry-point calls", len(entry_calls(c)))
         if f:
-            corr.oracle_fail(dict(kind="entry", dims=c["dims"], entry=c["entry"]), f[0], f[1], f[2])
+            corr.oracle_fail(_entry_input(c, f[3], f[4]), f[0], f[1], f[2])
         corr.count(json.dumps(c, sort_keys=True), nontrivial=True)
     return corr
 
@@ -1050,8 +1089,10 @@ def classify(failure):
     inp = failure.get("input") or {}
     if inp.get("kind") == "entry":
         e = inp.get("entry", {})
-        if e.get("via") in ("gate-num-qubits", "gate-default") and \
-                str(failure.get("observed", "")).startswith("rejected: TypeError"):
+        call = inp.get("call")
+        no_dims = e.get("via") in ("gate-num-qubits", "gate-default") or \
+            (str(e.get("via", "")).startswith("gate") and isinstance(call, dict) and "dims" not in call)
+        if no_dims and str(failure.get("observed", "")).startswith("rejected: TypeError"):
             return KF_NO_DIMS
     return None
 
@@ -1061,8 +1102,7 @@ def _oracle_on(case, rng=None):
     if case.get("kind") == "entry":
         f = check_entry(case)
         if f:
-            return dict(input=dict(kind="entry", dims=case["dims"], entry=case["entry"]),
-                        observed=f[0], expected=f[1], what=f[2])
+            return dict(input=_entry_input(case, f[3], f[4]), observed=f[0], expected=f[1], what=f[2])
         return None
     case.setdefault("ocol", list(case["orow"]))
     op = case.get("op", "coded")
